@@ -42,6 +42,10 @@ Decides necessary structural conditions only (never that decoded values equal wh
                                     table -- and the counter afterwards is (c + 1) mod N, so it stays in [0, N-1]
    o5m-ring-get                     get() rejects exactly index 0 and index > number_of_entries, and addresses slot
                                     (current + k*N - index) % N with the same N and the same entry size
+   pbf-field-numbers-are-spec       every enumerator of protobuf_tags.hpp carries the field number, label and type of the published
+                                    fileformat.proto / osmformat.proto (frozen table PROTO in this module = the specification witness)
+   o5m-prefetch-not-required        in O5mParser::decode_data a refill request for a constant number of bytes > 1 (the varint prefetch) is
+                                    best effort only: its result decides nothing, so a short final dataset is still accepted
  XML       attribute order independence
    xml-attribute-branch-own-field   in every per-attribute dispatcher (the lambdas handed to XMLParser::check_attributes, OSMObject::set_attribute,
                                     Changeset::set_attribute) a branch for one attribute updates only its own field of the state being assembled:
@@ -1559,6 +1563,166 @@ def o5m_ring_rules(fb, R, TABLE=NS + 'ReferenceTable'):
                 detail={'modulus': mod, 'constant': const_sum, 'stride': stride})
 
 
+# ================================================================================================ spec witness: field numbers
+
+R_NUM = 'pbf-field-numbers-are-spec'
+# fileformat.proto / osmformat.proto of the OSM-binary project, transcribed once: message -> field -> (number, label, type).
+# label 'packed' = `repeated ... [packed = true]`.  This table is the oracle (the published format), not the code.
+PROTO = {
+    'FileFormat::Blob': {'raw': (1, 'optional', 'bytes'), 'raw_size': (2, 'optional', 'int32'), 'zlib_data': (3, 'optional', 'bytes'),
+                         'lzma_data': (4, 'optional', 'bytes'), 'lz4_data': (6, 'optional', 'bytes'), 'zstd_data': (7, 'optional', 'bytes')},
+    'FileFormat::BlobHeader': {'type': (1, 'required', 'string'), 'indexdata': (2, 'optional', 'bytes'), 'datasize': (3, 'required', 'int32')},
+    'OSMFormat::HeaderBlock': {'bbox': (1, 'optional', 'HeaderBBox'), 'required_features': (4, 'repeated', 'string'),
+                               'optional_features': (5, 'repeated', 'string'), 'writingprogram': (16, 'optional', 'string'),
+                               'source': (17, 'optional', 'string'), 'osmosis_replication_timestamp': (32, 'optional', 'int64'),
+                               'osmosis_replication_sequence_number': (33, 'optional', 'int64'),
+                               'osmosis_replication_base_url': (34, 'optional', 'string')},
+    'OSMFormat::HeaderBBox': {'left': (1, 'required', 'sint64'), 'right': (2, 'required', 'sint64'), 'top': (3, 'required', 'sint64'),
+                              'bottom': (4, 'required', 'sint64')},
+    'OSMFormat::PrimitiveBlock': {'stringtable': (1, 'required', 'StringTable'), 'primitivegroup': (2, 'repeated', 'PrimitiveGroup'),
+                                  'granularity': (17, 'optional', 'int32'), 'date_granularity': (18, 'optional', 'int32'),
+                                  'lat_offset': (19, 'optional', 'int64'), 'lon_offset': (20, 'optional', 'int64')},
+    'OSMFormat::PrimitiveGroup': {'nodes': (1, 'repeated', 'Node'), 'dense': (2, 'optional', 'DenseNodes'), 'ways': (3, 'repeated', 'Way'),
+                                  'relations': (4, 'repeated', 'Relation'), 'changesets': (5, 'repeated', 'ChangeSet')},
+    'OSMFormat::StringTable': {'s': (1, 'repeated', 'bytes')},
+    'OSMFormat::Info': {'version': (1, 'optional', 'int32'), 'timestamp': (2, 'optional', 'int64'), 'changeset': (3, 'optional', 'int64'),
+                        'uid': (4, 'optional', 'int32'), 'user_sid': (5, 'optional', 'uint32'), 'visible': (6, 'optional', 'bool')},
+    'OSMFormat::DenseInfo': {'version': (1, 'packed', 'int32'), 'timestamp': (2, 'packed', 'sint64'), 'changeset': (3, 'packed', 'sint64'),
+                             'uid': (4, 'packed', 'sint32'), 'user_sid': (5, 'packed', 'sint32'), 'visible': (6, 'packed', 'bool')},
+    'OSMFormat::Node': {'id': (1, 'required', 'sint64'), 'keys': (2, 'packed', 'uint32'), 'vals': (3, 'packed', 'uint32'),
+                        'info': (4, 'optional', 'Info'), 'lat': (8, 'required', 'sint64'), 'lon': (9, 'required', 'sint64')},
+    'OSMFormat::DenseNodes': {'id': (1, 'packed', 'sint64'), 'denseinfo': (5, 'optional', 'DenseInfo'), 'lat': (8, 'packed', 'sint64'),
+                              'lon': (9, 'packed', 'sint64'), 'keys_vals': (10, 'packed', 'int32')},
+    'OSMFormat::Way': {'id': (1, 'required', 'int64'), 'keys': (2, 'packed', 'uint32'), 'vals': (3, 'packed', 'uint32'),
+                       'info': (4, 'optional', 'Info'), 'refs': (8, 'packed', 'sint64'), 'lat': (9, 'packed', 'sint64'),
+                       'lon': (10, 'packed', 'sint64')},
+    'OSMFormat::Relation': {'id': (1, 'required', 'int64'), 'keys': (2, 'packed', 'uint32'), 'vals': (3, 'packed', 'uint32'),
+                            'info': (4, 'optional', 'Info'), 'roles_sid': (8, 'packed', 'int32'), 'memids': (9, 'packed', 'sint64'),
+                            'types': (10, 'packed', 'MemberType')},
+}
+NOT_FIELDS = {'OSMFormat::PrimitiveGroup::unknown'}
+
+
+def pbf_field_number_rules(fb, R, ns=NS, table=None):
+    table = PROTO if table is None else table
+    for msg, fields in sorted(table.items()):
+        e = fb.enum(ns + msg)
+        if e is None:
+            R.broken('enum %s%s (message %s of the .proto files) not found' % (ns, msg, msg))
+            continue
+        site = '%s:%s' % (e.get('file', '?'), e.get('line', '?'))
+        have = {}
+        for en in e['enumerators']:
+            sp = codec.pbf_spec(fb, ns + msg, int(en['value']))
+            name = en['name']
+            parts = name.split('_')
+            if '%s::%s' % (msg, name) in NOT_FIELDS:
+                continue
+            if len(parts) < 3 or parts[0] not in ('required', 'optional', 'repeated', 'packed'):
+                R.bad(R_NUM, '%s::%s' % (msg, name), '%s:%s' % (e.get('file', '?'), en.get('l', e.get('line', '?'))),
+                      'enumerator %s::%s does not transcribe a proto declaration (<label>_<type>_<field>)' % (msg, name))
+                continue
+            have['_'.join(parts[2:])] = (int(en['value']), parts[0], parts[1], en.get('l'))
+            _ = sp
+        for fname, (num, label, ptype) in sorted(fields.items()):
+            key = '%s::%s' % (msg, fname)
+            if fname not in have:
+                if any(k.endswith('_' + fname) and k.startswith(msg) for k in NOT_DECODED):
+                    continue
+                R.bad(R_NUM, key, site, 'message %s has no enumerator for field `%s %s %s = %d` of the format' % (msg, label, ptype, fname, num))
+                continue
+            v, l, t, line = have[fname]
+            msgs = []
+            if v != num:
+                other = [f for f, (n2, _l, _t) in fields.items() if n2 == v]
+                msgs.append('field %s has number %d in the published .proto, the enumerator says %d%s: files written by any other encoder are '
+                            'decoded with this field %s' % (fname, num, v, ' (which is field `%s`)' % other[0] if other else '',
+                                                            'taken for `%s`' % other[0] if other else 'ignored'))
+            if l != label or t != ptype:
+                msgs.append('the format declares `%s %s %s`, the enumerator name says `%s %s`' % (label, ptype, fname, l, t))
+            R.check(not msgs, R_NUM, key, '%s:%s' % (e.get('file', '?'), line or e.get('line', '?')), '%s: %s' % (key, '; '.join(msgs)))
+        for fname in sorted(set(have) - set(fields)):
+            R.bad(R_NUM, '%s::%s' % (msg, fname), site, 'enumerator for `%s` (= %d) in %s: the published message has no such field'
+                  % (fname, have[fname][0], msg))
+
+
+# ================================================================================================ o5m: short final dataset
+
+R_PREF = 'o5m-prefetch-not-required'
+
+
+def o5m_prefetch_rules(fb, R, PARSER=NS + 'O5mParser', ENSURE='ensure_bytes_available', WINDOW='m_data'):
+    """The format guarantees only the dataset type byte, then a varint length, then `length` bytes.  A refill request for a constant
+    number of bytes > 1 (the varint prefetch) may therefore only be best effort: its result must not decide anything (no throw, no
+    loop exit), or a valid file whose last dataset is shorter than that constant is rejected / truncated."""
+    fns = [f for f in fb.fns(PARSER + '::decode_data') if f.has_cfg]
+    if not fns:
+        R.broken('%s::decode_data not found' % PARSER)
+    for fn in fns:
+        # the local holding the decoded dataset length
+        lenvars = set()
+        for n in fn.all_nodes():
+            if n.get('k') == 'call' and n.get('q') == 'protozero::decode_varint':
+                pm = fn.parent_map()
+                x = n['id']
+                hops = 0
+                while x in pm and hops < 6:
+                    hops += 1
+                    p = fn.nodes[pm[x]]
+                    if p.get('k') in ('wrap', 'icast', 'cast'):
+                        x = p['id']
+                        continue
+                    if p.get('k') == 'assign':
+                        l = fn.sn(p['lhs'])
+                        if l is not None and l.get('k') == 'var':
+                            lenvars.add(l.get('d'))
+                    elif p.get('k') == 'decl':
+                        for v in p['vars']:
+                            if isinstance(v.get('init'), int) and n['id'] in fn.subtree(v['init']):
+                                lenvars.add(v['d'])
+                    break
+        conds = {}
+        for b in fn.blocks.values():
+            if 'cond' in b:
+                for x in fn.subtree(b['cond']):
+                    conds.setdefault(x, b)
+        pm = fn.parent_map()
+        calls = [n for n in fn.all_nodes() if n.get('k') == 'call' and n.get('q') == '%s::%s' % (PARSER, ENSURE) and n.get('args')]
+        if not calls:
+            R.broken('%s: no call of %s' % (fn.q, ENSURE))
+        for c in calls:
+            a = strip_casts(fn, c['args'][0])
+            k = fn.const_value(c['args'][0])
+            if k is not None:
+                what = str(k)
+            elif a is not None and a.get('k') == 'var' and a.get('d') in lenvars:
+                what = 'length'
+            else:
+                R.broken('%s: %s(%s): argument is neither a constant nor the decoded dataset length' % (fn.q, ENSURE, fn.expr(c['args'][0])))
+                continue
+            # is the result used?
+            used = c['id'] in conds
+            x = c['id']
+            hops = 0
+            while not used and x in pm and hops < 6:
+                hops += 1
+                p = fn.nodes[pm[x]]
+                if p.get('k') in ('wrap', 'icast', 'cast'):
+                    x = p['id']
+                    continue
+                if p.get('k') == 'cast' and p.get('toC') == 'void':
+                    break
+                used = p.get('k') in ('assign', 'decl', 'return', 'unop', 'binop', 'condop', 'call', 'construct')
+                break
+            key = '%s#refill(%s)' % (fn.q, what)
+            bad = used and k is not None and k > 1
+            R.check(not bad, R_PREF, key, fn.loc(c['id']),
+                    '%s makes %s(%s) a hard requirement (its result decides a throw / the loop): after the dataset type byte the format '
+                    'guarantees only a varint length and then that many bytes, so a valid file whose last dataset is shorter than %s bytes '
+                    '(e.g. a 3-byte final dataset) is rejected or dropped; a prefetch of a constant > 1 may only be best effort'
+                    % (fn.q, ENSURE, what, what), detail={'result_used': used})
+
+
 # ================================================================================================ XML attribute order
 
 R_XATTR = 'xml-attribute-branch-own-field'
@@ -1801,6 +1965,8 @@ def run(ctx):
         o5m_dataset_rules(fb, R)
         o5m_ring_rules(fb, R)
         xml_attribute_rules(fb, R)
+        pbf_field_number_rules(fb, R)
+        o5m_prefetch_rules(fb, R)
     # instance floors, each count confirmed by reading the pristine tree (the evidence file lists the instances)
     floors = [
         (R_DEFAULT, 13),    # 13 switches over tag_and_type(): 9 in PBFPrimitiveBlockDecoder, decode_blob, decode_header_bbox, decode_header_block, decode_blob_header
@@ -1823,7 +1989,10 @@ def run(ctx):
         (R_RCONST, 3),      # number of entries, entry size, table size
         (R_RADD, 2),
         (R_RGET, 2),
-        (R_XATTR, 10),      # 8 check_attributes lambdas (init_object, init_changeset, get_tag, top_level_element, bounds, nd, member, comment) + 2 set_attribute
+        (R_XATTR, 10),
+        (R_NUM, 70),        # every field of the 13 messages in the frozen PROTO table
+        (R_PREF, 3),        # ensure_bytes_available(1) loop condition, (max_varint_length) best-effort prefetch, (length)
+      # 8 check_attributes lambdas (init_object, init_changeset, get_tag, top_level_element, bounds, nd, member, comment) + 2 set_attribute
     ]
     for rule, n in floors:
         R.expect(rule, n)
